@@ -174,7 +174,7 @@ def run_machine(prop, invs, props, tier, seed, schema="SchemaA", signature_prefi
         out.violation(
             "%sreplay:%s:%s:%s" % (signature_prefix, op, sub, m.detail.split(":")[0]),
             "spec->code: %s on the real Config differs from the specification: %s" % (brief(m.ev), m.detail[:300]),
-            m.to_json(),
+            dict(m.to_json(), schema=desc, focus=focus),
         )
     # 3. code -> spec
     ntr, ltr = (150, 14) if tier == "quick" else (2500, 24)
@@ -237,6 +237,35 @@ def run_machine(prop, invs, props, tier, seed, schema="SchemaA", signature_prefi
         "configurations hold no key file and no environment bindings in this instance (C03 / C14 have their own)",
     ]
     return out
+
+
+def replay_file(rec):
+    """./check <ID> --replay <file>: run a recorded spec->code case again on the current tree."""
+    r = rec.get("replay", {})
+    if r.get("kind") != "step-differs" or "schema" not in r:
+        print(json.dumps(rec, indent=1, sort_keys=True)[:20000])
+        return 0
+    cinco = common.import_repo()
+    adapter = cfgadapter.Adapter(cinco, r["schema"])
+    adapter.focus = r.get("focus")
+    sut = adapter.start(r["init"])
+    try:
+        for ev in r["history"]:
+            adapter.step(sut, ev)
+        obs_ev = adapter.step(sut, r["event"])
+        obs_state = adapter.observe(sut)
+    finally:
+        adapter.close(sut)
+    print("event:    %s" % json.dumps({k: v for k, v in r["event"].items() if k not in replay.RESULT_FIELDS or k in ("tree",)}, sort_keys=True)[:2000])
+    print("observed: %s" % json.dumps(obs_ev, sort_keys=True, default=str)[:2000])
+    for alt in r["expected_by_spec"]:
+        why = replay._matches(obs_ev, obs_state, alt["ev"], alt["to"])
+        if why is None:
+            print("the current tree behaves as the specification says (this alternative): no violation")
+            return 0
+        print("differs from the specification: %s" % why[:1500])
+    print("VIOLATION property=%s replay=%s" % (rec.get("property"), "<this file>"))
+    return 1
 
 
 def merge(a, b):
